@@ -139,6 +139,18 @@ def handle (op : String) (a : List String) : Option String :=
         | none => some "undecodable"
       | _ => none
     | _, _, _ => none
+  -- digit recodings of the internal package: the digit expansions of the reduced scalar, computed from the number
+  | "c14.dg", [kind, x] =>
+    match parseV x with
+    | some x =>
+      let k : Int := ((Ed25519.leNat x % Ed25519.L : Nat) : Int)
+      let out := fun (ds : List Int) => "ok " ++ hxv (ds.map fun d => UInt8.ofNat (d % 256).toNat)
+      match kind with
+      | "radix16" => some (out (Model.Recode.radix16Spec 63 k))
+      | "naf5" => some (out (Model.Recode.nafSpec 5 256 k))
+      | "naf8" => some (out (Model.Recode.nafSpec 8 256 k))
+      | _ => none
+    | none => none
   | "c14.key", [seed] => (parseV seed).map fun seed => "ok " ++ hxv (Ed25519.newKeyFromSeed sha512 seed)
   | "c14.sign", [seed, msg] =>
     match parseV seed, parseV msg with
